@@ -154,7 +154,8 @@ CHECKS = {
                 'the last to = measure count of the result; the result is the import of the joined text; importing r1 ++ r2 is '
                 'importing r2 from the state after r1 and the measure index of a prefix is a prefix of the index of the whole '
                 '(induction over rows). Correspondence and monitors on scores cut at sets of barline positions into 1..6 '
-                'fragments with both separators, incl. exporting every pair.',
+                'fragments with both separators, incl. exporting every pair; every fifth score leaves its splits open across the cuts. '
+                'Known finding K14 (the pair of a fragment starting inside an open split cannot be exported).',
         'note': _COMMON_NOTE,
         'technique': 'Coq proof (induction over fragments and rows) + model/impl correspondence + fragment-export monitor',
     },
